@@ -5,6 +5,7 @@ From Coq Require Import List Bool Arith ZArith NArith Lia.
 From XD Require Import lib.ListAux lib.Toposort model.Manager model.ManagerData
   proofs.ManagerIdx proofs.ManagerInv proofs.ManagerTrace proofs.ManagerDataInv proofs.Store proofs.ManagerC01
   proofs.ManagerFault.
+From XD Require Import model.TasksSem model.TasksSemData gen.GenTasks gen.GenTasksData proofs.TasksSrc proofs.TasksSrcData.
 Import ListNotations.
 Local Open Scope nat_scope.
 
@@ -107,9 +108,17 @@ Example C18_nonvacuous :
    (nget st [kc; fb], nget st [kc; fc]) = (Some (Leaf 6), Some (Leaf 12))).
 Proof. vm_compute. repeat split; reflexivity. Qed.
 
+(* tie to the source: the translated Manager.run_tasks (a plain loop, no exception handling: the first exception
+   leaves the loop with the state reached so far) is the model's run_tasks *)
+Theorem C18_run_tasks_is_source : forall ts (m : dmgr) s tr,
+  src_run_tasks task_run ts (m, s, tr) =
+  let '(s2, tr2, er) := run_tasks ts s in ((m, s2, tr ++ tr2), res_of er).
+Proof. exact src_run_tasks_eq. Qed.
+
 Print Assumptions C18_defs_unchanged.
 Print Assumptions C18_reported_prefix.
 Print Assumptions C18_frame.
 Print Assumptions C18_recover_partial.
 Print Assumptions C18_refuted_linear_knob.
 Print Assumptions C18_nonvacuous.
+Print Assumptions C18_run_tasks_is_source.
